@@ -45,7 +45,7 @@ pub fn run(ctx: &Ctx) -> bool {
     }
     // Engine C: coverage-guided campaign over the same decoder and oracle (thorough tier)
     if !ctx.quick() {
-        crate::fuzzapi::campaign(ctx, ctx.scale(0, 1_600_000));
+        crate::fuzzapi::campaign(ctx, ctx.scale(0, 800_000));
     }
     true
 }
